@@ -9998,6 +9998,7 @@ pub struct FoldingRangeRefreshRequest {
 }
 
 /// Response to the [FoldingRangeRefreshRequest].
+#[cfg(feature = "proposed")]
 #[derive(Serialize, Deserialize, PartialEq, Debug, Eq, Clone)]
 #[serde(rename_all = "camelCase", deny_unknown_fields)]
 pub struct FoldingRangeRefreshResponse {
@@ -10979,6 +10980,7 @@ pub struct InlineCompletionRequest {
 }
 
 /// Response to the [InlineCompletionRequest].
+#[cfg(feature = "proposed")]
 #[derive(Serialize, Deserialize, PartialEq, Debug, Eq, Clone)]
 #[serde(rename_all = "camelCase", deny_unknown_fields)]
 pub struct InlineCompletionResponse {
@@ -11017,6 +11019,7 @@ pub struct TextDocumentContentRequest {
 }
 
 /// Response to the [TextDocumentContentRequest].
+#[cfg(feature = "proposed")]
 #[derive(Serialize, Deserialize, PartialEq, Debug, Eq, Clone)]
 #[serde(rename_all = "camelCase", deny_unknown_fields)]
 pub struct TextDocumentContentResponse {
@@ -11054,6 +11057,7 @@ pub struct TextDocumentContentRefreshRequest {
 }
 
 /// Response to the [TextDocumentContentRefreshRequest].
+#[cfg(feature = "proposed")]
 #[derive(Serialize, Deserialize, PartialEq, Debug, Eq, Clone)]
 #[serde(rename_all = "camelCase", deny_unknown_fields)]
 pub struct TextDocumentContentRefreshResponse {
@@ -11959,6 +11963,7 @@ pub struct DocumentRangesFormattingRequest {
 }
 
 /// Response to the [DocumentRangesFormattingRequest].
+#[cfg(feature = "proposed")]
 #[derive(Serialize, Deserialize, PartialEq, Debug, Eq, Clone)]
 #[serde(rename_all = "camelCase", deny_unknown_fields)]
 pub struct DocumentRangesFormattingResponse {
